@@ -149,7 +149,7 @@ CHECKS: dict[str, dict[str, str]] = {
     'C02': dict(
         technique='explicit TLA+ model of the closed loop of one object (Handling.tla) checked exhaustively with TLC; traces of the real '
                   'kopf.operator() in the world simulator validated by TLC against the specification (Trace_Handling.tla)',
-        text='recorded progress governs invocation: InvokeGoverned (record in the processed view: not finished, retry = recorded attempts, delay elapsed), CloseExactlyWhenDone, AtMostOnce with all doors closed; the negative configuration shows a kill re-opens the door' ' -- checked by TLC on Handling.tla for every interleaving of the bounded configurations, and on every state of '
+        text='[+ OnceMonitor.tla: the statement as a property automaton over runs with a parent handler, two scripted sub-handlers, a sibling, mid-cycle edits (resume superseded by update) and graceful restarts] recorded progress governs invocation: InvokeGoverned (record in the processed view: not finished, retry = recorded attempts, delay elapsed), CloseExactlyWhenDone, AtMostOnce with all doors closed; the negative configuration shows a kill re-opens the door' ' -- checked by TLC on Handling.tla for every interleaving of the bounded configurations, and on every state of '
              'the behaviour that explains each recorded trace of the real operator (seeded random scenarios of profile progress + errors; every '
              'PATCH is compared with the specification\'s server object field by field, virtual time is bound by urgency).',
         note='one object, one operator at a time; handlers are coroutines with scripted outcomes; sub-handlers, handler timeouts and '
@@ -176,7 +176,7 @@ CHECKS: dict[str, dict[str, str]] = {
     'C07': dict(
         technique='explicit TLA+ model of the closed loop of one object (Handling.tla) checked exhaustively with TLC; traces of the real '
                   'kopf.operator() in the world simulator validated by TLC against the specification (Trace_Handling.tla)',
-        text="FreshOrTimedOut (a change handler runs on a view at least as new as the worker's own last patch, or after the consistency timeout since it); worker locals expected_version/consistency_time are bound from the q.proc.begin hook; echo delays are produced by holding watch lines" ' -- checked by TLC on Handling.tla for every interleaving of the bounded configurations, and on every state of '
+        text="[+ FreshMonitor.tla: the statement as a property automaton over runs with a raw-event handler whose result is patched on every event and a watch stream late by L seconds; raw handlers must see every line at once] FreshOrTimedOut (a change handler runs on a view at least as new as the worker's own last patch, or after the consistency timeout since it); worker locals expected_version/consistency_time are bound from the q.proc.begin hook; echo delays are produced by holding watch lines" ' -- checked by TLC on Handling.tla for every interleaving of the bounded configurations, and on every state of '
              'the behaviour that explains each recorded trace of the real operator (seeded random scenarios of profile consistency; every '
              'PATCH is compared with the specification\'s server object field by field, virtual time is bound by urgency).',
         note='one object, one operator at a time; handlers are coroutines with scripted outcomes; sub-handlers, handler timeouts and '
@@ -185,7 +185,7 @@ CHECKS: dict[str, dict[str, str]] = {
     'C11': dict(
         technique='explicit TLA+ model of the closed loop of one object (Handling.tla) checked exhaustively with TLC; traces of the real '
                   'kopf.operator() in the world simulator validated by TLC against the specification (Trace_Handling.tla)',
-        text='retry numbering, delays (a handler is never invoked before its recorded delay), permanence, ignored mode and the retries limit for change handlers incl. across kills/restarts (RetriesBounded, InvokeGoverned); records after every PATCH are compared field by field' ' -- checked by TLC on Handling.tla for every interleaving of the bounded configurations, and on every state of '
+        text='[+ Execution.tla: reference of one invocation - timeout / retries before the attempt, look-ahead for temporary and arbitrary errors, error modes, backoff - laws checked by TLC over 143 360 input combinations; the real execute_handler_once on configurations x states (incl. runtimes beyond 24 h) x behaviours for an activity and a change handler judged by TLC] retry numbering, delays (a handler is never invoked before its recorded delay), permanence, ignored mode and the retries limit for change handlers incl. across kills/restarts (RetriesBounded, InvokeGoverned); records after every PATCH are compared field by field' ' -- checked by TLC on Handling.tla for every interleaving of the bounded configurations, and on every state of '
              'the behaviour that explains each recorded trace of the real operator (seeded random scenarios of profile errors; every '
              'PATCH is compared with the specification\'s server object field by field, virtual time is bound by urgency).',
         note='one object, one operator at a time; handlers are coroutines with scripted outcomes; sub-handlers, handler timeouts and '
